@@ -49,6 +49,21 @@ TEXT.update({
             "exhaustive law grid under Miri / ASan"),
 })
 
+TEXT.update({
+    "C08": ("exploration", "5 C08",
+            "Bounded-progress restatement monitored at run time: every measured load of a victim thread must finish within 64 of its own step points under four forced schedulers (solo, random, an adversary completing whole writes after every single victim step, everybody else frozen for good mid-load), with 0..20 guards held; the bound is enforced inside the step handler, non-stepping hangs by the watchdog rule.",
+            "step-count monitor under adversarial / freezing token schedulers"),
+    "C09": ("exploration", "5 C09",
+            "Freeze-and-solo probes from sampled intermediate states: all threads but the prober are parked at their current step point (table of freeze sites in the evidence, the windows named by the property are required to occur), the prober then completes every kind of write / guard operation alone within 50 + 70 x #nodes own steps; afterwards the execution resumes and all core oracles run.",
+            "solo-completion probes from frozen states under the token scheduler + step-count monitor"),
+})
+
+TEXT.update({
+    "C13": ("fault_enumeration", "5 C13",
+            "The wrap-around of the slow-path transaction counter is forced at each of 17 positions (preset through a hook) in three situations and on both ways onto the slow path; every API call of every workload runs under a panic hook that attributes panics located in the crate to C13; hangs are decided by the watchdog; after the wrap 20-60 more operations per thread run and all core oracles (ledger, conservation law, histories, node invariants) must hold. TOKEN-scheduled, free-running, under ASan and (small presets) under Miri.",
+            "fault enumeration of counter presets + panic/hang monitor + core oracles"),
+})
+
 NOTE = {
     "C01": "Trusted: the harness pointer type and scheduler; TOKEN mode explores sequentially consistent interleavings only; SC-only ordering weakenings are out of reach (DESIGN.md).",
 }
